@@ -5,6 +5,7 @@
 //! (`--child ...` is the internal worker mode of the C07/C21 sweeps).
 
 mod alloc;
+mod c07;
 mod c12;
 mod c20;
 mod c21;
@@ -21,7 +22,9 @@ static GLOBAL: alloc::Counting = alloc::Counting;
 fn main() {
     let args = engine::parse_args();
     engine::install_quiet_panic_hook();
+    child::set_tier(args.tier);
     let code = match args.property.as_str() {
+        "C07" => c07::run(&args),
         "C12" => c12::run(&args),
         "C20" => c20::run(&args),
         "C21" => c21::run(&args),
